@@ -85,6 +85,14 @@ theorem C14_write_step_flags (o : SaveOpts) (ss1 : SSt) (mp p t : Str) (sg : Boo
       · exact Or.inl h
       · exact Or.inr (Or.inl ⟨h1, h3⟩)
     case false =>
+      simp only [Bool.false_eq_true, if_false] at h
+      generalize (List.any _ _) = T at h
+      cases T
+      case true =>
+        simp only [if_true, List.mem_append, List.mem_singleton, Write.file.injEq] at h
+        rcases h with h | ⟨h1, _, h3⟩
+        · exact Or.inl h
+        · exact Or.inr (Or.inl ⟨h1, h3⟩)
       simp only [Bool.false_eq_true, if_false, List.mem_append, List.mem_singleton, List.mem_cons, Write.file.injEq,
         List.not_mem_nil, or_false, reduceCtorEq] at h
       rcases h with (h | ⟨h1, _, h3⟩) | ⟨h1, _, h3⟩
@@ -171,10 +179,11 @@ private theorem writeStep_cfg (o : SaveOpts) (ss1 : SSt) (mp : Str) : signCfg (w
   | some wm =>
     simp only
     generalize ((compressedSuffix? mp).isSome == _) = B
+    generalize (List.any _ _) = T
     obtain ⟨_, f2, f3, f4⟩ := setIds_fields ss1.st mp
       (List.map (fun x => x.1) (if o.sort = true then stableSort (fun a b => entryLt a.2 b.2) (ss1.st.entriesOf mp)
         else ss1.st.entriesOf mp))
-    cases B <;> simp only [signCfg, f2, f3, f4, Bool.false_eq_true, if_false, if_true]
+    cases B <;> cases T <;> simp only [signCfg, f2, f3, f4, Bool.false_eq_true, if_false, if_true]
 
 private theorem sync_cfg (lm : LoadedMs) : ∀ (acc : St), signCfg (acc.sync lm) = signCfg acc := by
   induction lm with
